@@ -422,6 +422,17 @@ func c05Scenario(c *Ctx, idx int, r *Rng) {
 	}
 	// ---- server side: which objects does the remote hold?  (objects arrive by push; some get lost)
 	flags := Pick(r, [][]string{{}, {}, {}, {"--force"}, {"--recent"}, {"--dry-run"}, {"--dry-run", "--verbose"}, {"--verify-remote"}, {"--verify-remote"}, {"--verify-remote", "--verify-unreachable"}, {"--verify-remote", "--when-unverified=continue"}})
+	if len(worktrees) > 1 && r.Chance(50) {
+		// directed: another worktree has its own checkout, everything is pushed, old versions fall out of the
+		// windows — the only thing that still protects the other checkout's objects is that it IS a checkout,
+		// whatever the flags say about recent refs
+		for _, tgt := range pushTargets {
+			w.git("push", "-q", tgt, "--all")
+		}
+		flags = Pick(r, [][]string{{"--recent"}, {"--recent"}, {}, {"--force"}})
+		s.log("push --all (everything is on the remote)")
+		c.R.Count("family.other-worktree-checkout-only")
+	}
 	lost := map[string]bool{}
 	if len(flags) > 0 && flags[0] == "--verify-remote" {
 		psrv.mu.Lock()
